@@ -52,6 +52,17 @@ props = {
    "trusted_base": [T_SSA, T_SOLV, T_STR, "strings.Join(elems, sep) is a function of the element sequence and the separator; strings.Fields returns a fresh slice (T7)"],
    "not_decided": ["that splitting the emitted value at ASCII whitespace yields exactly the joined tokens (a fact about strings.Join/Fields and token syntax: the listed tokens contain no whitespace)"],
    "level_text": "Proof for all policies and attribute lists: sanitizeAttrs ensures that with requireCrossOriginAnonymous every audio/img/link/script/video result that has attributes contains a crossorigin attribute and every crossorigin attribute has the value anonymous; and that with requireSandboxOnIFrame every iframe result that has attributes contains a sandbox attribute and every sandbox value is empty or strings.Join(tokens, \" \") of pairwise distinct tokens each of which the policy lists (inner-loop invariant relating cleanVals and cleanValsSet)."},
+ "C13": {"title": "A finished policy is deterministic and safe to share between goroutines",
+   "implicit_modifies_nothing": True,
+   "runs": [{"fn": [P+"Sanitize", P+"SanitizeBytes", P+"SanitizeReader", P+"SanitizeReaderToWriter", P+"sanitizeWithBuff", P+"sanitize", P+"sanitizeAttrs", P+"sanitizeStyles", P+"validURL", P+"matchRegex", P+"allowNoAttrs", P+"init",
+                    "bluemonday.linkable", "bluemonday.stringInSlice", "bluemonday.isDataAttribute", "bluemonday.hasRelToken", "bluemonday.removeUnicode", "bluemonday.normaliseElementName", "(*bluemonday.asStringWriter).WriteString",
+                    P+"AllowDataURIImages$1", "css.*", "!css.init"], "beh": ""}], "timeout": 15, "min_obligations": 400,
+   "trusted_base": [T_SSA, T_SOLV, T_HTML, T_IO, T_RE, T_STR, T_CB,
+      "Go memory model: goroutines none of which writes a location shared with another are data-race free and each behaves as if run alone (T11)",
+      "regexp.Regexp methods are safe for concurrent use (documented; T6)"],
+   "not_decided": ["actual goroutine interleavings and the race detector's view: this technique has no scheduler; what is proved is the premise (no write to any object that existed before the call, no write to a package-level variable) from which race freedom follows by T11",
+                   "policies used before their first builder call (bare Policy{} literals): the sanitize family is verified under 'requires p.initialized'"],
+   "level_text": "Proof of the read-only premise: every store, map update, delete and every call in the four entry points and everything they reach (sanitize, sanitizeAttrs, sanitizeStyles, validURL, matchRegex, allowNoAttrs, the helpers and all 190 css functions) carries a frame obligation: the written object was allocated during the same call (fresh literals, make, append chains, the local token and attribute variables) or the instruction is unreachable under p.initialized (init's ten stores); no package-level variable is written. Determinism: the functional postconditions of C01-C12 are proved with map iteration in arbitrary order, so no result can depend on it."},
  "C16": {"title": "I/O failures are reported and the output stays a clean prefix",
    "runs": [{"fn": SAN + [P+"sanitizeWithBuff", P+"SanitizeReader", P+"SanitizeReaderToWriter", "(*bluemonday.asStringWriter).WriteString"], "beh": ""}], "timeout": 15, "min_obligations": 60,
    "trusted_base": [T_SSA, T_SOLV, T_HTML, T_IO],
